@@ -70,16 +70,28 @@ namespace
                 ",\"composition models\":[{\"model\":\"uniform\",\"compositions\":[0,2],\"fractions\":[0.5,0.5]}]"
                 ",\"grains models\":[" + worlds::uniform_grains("[0]", 1, 45) + "]"
                 ",\"velocity models\":[{\"model\":\"uniform raw\",\"velocity\":[0.03,0,-0.03]}]}");
-    return world(coord(sph), f);
+    return world(coord(sph) + ",\"cross section\":[" + pt({-4.5*s, -3.5*s}) + "," + pt({3.5*s, 2.5*s}) + "]", f);
   }
   const Request NODE_REQ[6] = {{{{1,0,0}}}, {{{1,0,0}},{{2,0,0}},{{4,0,0}}}, {{{3,0,2}},{{5,0,0}},{{1,0,0}},{{2,1,0}}}, {{{4,0,0}},{{5,0,0}}}, {{{2,2,0}},{{1,0,0}}}, {{{3,1,1}},{{4,0,0}},{{1,0,0}}}};
   const size_t NODE_PROBE[6] = {61, 97, 140, 13, 200, 150};
 
+  // node i: even nodes use the 3-D interface, odd nodes the 2-D interface (different request lists everywhere)
+  std::vector<double> node_query(const WorldBuilder::World &w, bool sph, const std::vector<worlds::Probe> &probes, const std::vector<worlds::Probe2> &probes2, size_t i)
+  {
+    if (i % 2 == 0)
+      {
+        const auto &pr = probes[NODE_PROBE[i % 6]];
+        return w.properties(query_point(sph, pr.x, pr.y, pr.depth), pr.depth, NODE_REQ[i % 6]);
+      }
+    const auto &p2 = probes2[(NODE_PROBE[i % 6]) % probes2.size()];
+    return w.properties(std::array<double,2>{{p2.x, p2.z}}, p2.depth, NODE_REQ[i % 6]);
+  }
   struct SchedHarness
   {
     Config cf;
     std::string text, file;
     std::vector<worlds::Probe> probes;
+    std::vector<worlds::Probe2> probes2;
     std::vector<std::vector<double>> seq, got;
     std::vector<int> completion;
     std::function<void()> body;
@@ -88,14 +100,11 @@ namespace
       text = sched_world(cf.spherical);
       file = write_world_file(text, "s");
       probes = worlds::lattice(cf.spherical);
+      probes2 = worlds::lattice2(cf.spherical);
       seq.resize(static_cast<size_t>(cf.nodes));
       got.resize(static_cast<size_t>(cf.nodes));
       WorldBuilder::World w(file, false, "", 1, true);
-      for (int i = 0; i < cf.nodes; ++i)
-        {
-          const auto &pr = probes[NODE_PROBE[i % 6]];
-          seq[static_cast<size_t>(i)] = w.properties(query_point(cf.spherical, pr.x, pr.y, pr.depth), pr.depth, NODE_REQ[i % 6]);
-        }
+      for (int i = 0; i < cf.nodes; ++i) seq[static_cast<size_t>(i)] = node_query(w, cf.spherical, probes, probes2, static_cast<size_t>(i));
       body = [this]()
       {
         // a brand-new world for every execution: executions are independent and replayable
@@ -105,8 +114,7 @@ namespace
         ThreadPool pool(static_cast<size_t>(cf.workers));
         pool.parallel_for(0, static_cast<size_t>(cf.nodes), [&](size_t i)
         {
-          const auto &pr = probes[NODE_PROBE[i % 6]];
-          got[i] = wx.properties(query_point(cf.spherical, pr.x, pr.y, pr.depth), pr.depth, NODE_REQ[i % 6]);
+          got[i] = node_query(wx, cf.spherical, probes, probes2, i);
           completion.push_back(static_cast<int>(i));
         });
       };
